@@ -1,6 +1,6 @@
 (* C01 - the default neighbour search (symdel / nearest_neighbor) returns exactly the pairs within max_edits. *)
 From Coq Require Import List NArith Bool Arith Lia.
-From PV Require Import lib.Edits lib.LevDP lib.Str model.Symdel proofs.SymdelP.
+From PV Require Import lib.Edits lib.LevDP lib.Str model.Symdel proofs.SymdelP proofs.SymdelFarP.
 Import ListNotations.
 
 Definition nn_default (k : nat) (seqs : list str) : list (nat * nat * nat) :=
@@ -58,6 +58,29 @@ Proof.
   now rewrite all_pairs_self_spec.
 Qed.
 Print Assumptions C01_brute_force_agrees.
+
+(* [audit] positions whose strings share no letter are never reported once one of the two is longer than max_edits: every
+   column of an alignment of such strings costs one edit.  harness/c01.py uses this to decide collections of more than 2^15
+   strings block by block (blocks over pairwise disjoint alphabets, every string longer than max_edits). *)
+Theorem C01_no_common_letter_not_neighbours : forall k seqs i j d,
+  no_common_letter (sget seqs i) (sget seqs j) ->
+  k < Nat.max (length (sget seqs i)) (length (sget seqs j)) ->
+  ~ In (i, j, d) (nn_default k seqs).
+Proof.
+  intros k seqs i j d Hn Hk H. apply C01_exact in H as (_ & _ & _ & -> & Hd).
+  pose proof (lev_no_common_lower N.eq_dec _ _ Hn) as L. unfold slev in Hd. lia.
+Qed.
+Print Assumptions C01_no_common_letter_not_neighbours.
+
+Example C01_no_common_letter_ex :
+  no_common_letter (sget [[67;65]; [68;68;69]; [67]]%N 0) (sget [[67;65]; [68;68;69]; [67]]%N 1) /\
+  2 < Nat.max (length (sget [[67;65]; [68;68;69]; [67]]%N 0)) (length (sget [[67;65]; [68;68;69]; [67]]%N 1)) /\
+  nn_default 2 [[67;65]; [68;68;69]; [67]]%N = [(0, 2, 1); (2, 0, 1)].
+Proof.
+  split; [|split; [simpl; lia | vm_compute; reflexivity]].
+  intros x Hx Hy. simpl in Hx, Hy.
+  destruct Hx as [<-|[<-|[]]]; destruct Hy as [Hy|[Hy|[Hy|[]]]]; discriminate Hy.
+Qed.
 
 (* non-vacuity: duplicates, an indel neighbour, the empty string *)
 Example C01_ex : nn_default 1 [[67;65;65;65]; [67;65;65]; [67;65;65;65]; []]%N =
